@@ -189,10 +189,13 @@ def build(family, p):
             check(m.serial == S, 'message did not take the next serial')
             check(message.DBusMessage._nextSerial == S + 1, 'serial counter not advanced by one')
             # -- structure, by the reference decoder
-            d = ref_msg.decode(raw)
-            check(d.little, 'messages are built little-endian')
+            d = ref_msg.decode(raw)          # either byte order is acceptable: the decoder follows the endianness byte
             check(d.type == MTYPE[kind], 'wrong message type byte')
-            check(d.flags == (1 if no_reply else 0) + (2 if no_auto else 0), 'flags byte is not the spec bits')
+            if kind == 'call':
+                check(d.flags == (1 if no_reply else 0) + (2 if no_auto else 0), 'flags byte is not the spec bits')
+            else:
+                check(d.flags >= 0 and d.flags < 8, 'undefined flag bits set')
+                no_reply, no_auto = (d.flags % 2 == 1), ((d.flags // 2) % 2 == 1)    # whatever was sent must parse back
             check(d.version == 1, 'protocol version is not 1')
             check(d.serial == S and d.serial != 0, 'serial on the wire differs / is zero')
             want = dict(fields)
@@ -215,7 +218,7 @@ def build(family, p):
             check(m.bodyLength == len(d.body) and len(m.rawBody) == len(d.body), 'bodyLength attribute differs')
             check(m.rawHeader + m.rawPadding + m.rawBody == raw, 'raw parts do not add up')
             if bsig:
-                check(d.body == ref_codec.encode(bsig, ref, 0, True), 'body bytes are not the wire format')
+                check(d.body == ref_codec.encode(bsig, ref, 0, d.little), 'body bytes are not the wire format')
             else:
                 check(len(d.body) == 0, 'body present without signature')
             # -- parse back
